@@ -308,6 +308,21 @@ func c18Cases(thorough bool) []c18Case {
 				cs = append(cs, c18Case{Kind: "header", Header: hn, Words: []string{wordOf(a, false), wordOf(b, false)}, Seps: []string{" "}})
 			}
 		}
+		// multiple blanks between words around the folding point
+		for a := 55; a <= 80; a++ {
+			for b := 55; b <= 80; b++ {
+				for _, sep := range []string{"  ", "   ", "      "} {
+					if !thorough && hn != "Subject" && (a+b)%2 != 0 {
+						continue
+					}
+					cs = append(cs, c18Case{Kind: "header", Header: hn, Words: []string{wordOf(a, false), wordOf(b, false)}, Seps: []string{sep}})
+				}
+			}
+		}
+		for _, k := range []int{40, 70, 74, 75, 76, 77, 78, 80, 150} {
+			cs = append(cs, c18Case{Kind: "header", Header: hn, Words: []string{"a", "b"}, Seps: []string{strings.Repeat(" ", k)}},
+				c18Case{Kind: "header", Header: hn, Words: []string{wordOf(70, false), "b", wordOf(72, false)}, Seps: []string{strings.Repeat(" ", k), " "}})
+		}
 		for _, a := range lens {
 			for _, b := range lens {
 				for _, c := range lens {
